@@ -58,7 +58,12 @@ func runC07(c *Ctx) {
 		"chain x -> F0 = D(x) -> e1 = E(F0) -> F1 = D(e1) -> e2 = E(F1) -> F2 = D(e2); every arrow is a recorded call validated by TLC (decode events against FitRef, encode events against the File that was encoded), e1 must pass CheckIntegrity, and F1 must equal F2 exactly (TLC compares the two projections)",
 		"F0 vs F1 (same per-type counts, equal numeric / time / coordinate values, strings and arrays up to the profile lengths) follows from the encode event of F0 and the decode event of e1 sharing the bytes e1",
 		"messages that no container holds, unknown fields and developer fields are not content of the File and are not expected to survive",
+		"StringImpl.tla transcribes encodeString; TLC checks it against the string rule (NUL-terminated, longest prefix of whole characters that fits, valid UTF-8 never refused) on every string of <= 4 (5) characters x sizes 1..12 (20) and refutes the two defective truncation loops; the same domain and longer strings go through the real function (hook VerifEncodeString) and are validated by Trace_String",
 	}
+	// strings are the one field kind Encode re-shapes (fixed size, cut at a
+	// character boundary): Impl model and Code ~ Impl conformance
+	stringModel(c)
+	stringConformance(c)
 	rng := newRng(c.Seed)
 	var inputs [][]byte
 	var notes []string
